@@ -247,6 +247,70 @@ func (c *checker) mutate(sc signedCase) {
 	}
 }
 
+// otherPrefixes: a wallet-signed multisig program is also what spends a multisig DEPOSIT address
+// (prefix 0x1f) or a multisig script paid to under the standard prefix (0x21): RunPrograms
+// decides by code kind there. The same program must pass under those prefixes, and altered data,
+// all-zero signatures and a dropped signature must fail under every prefix RunPrograms routes
+// (0x12, 0x21, 0x1f and the cross-chain prefix 0x4b).
+func (c *checker) otherPrefixes(sc signedCase) {
+	if !strings.HasPrefix(sc.kind, "multisig ") {
+		return
+	}
+	run := func(pre byte, param, data []byte) bool {
+		h := common.Uint168(keys.ProgramHash(pre, sc.prog.Code))
+		p := &pg.Program{Code: append([]byte{}, sc.prog.Code...), Parameter: append([]byte{}, param...)}
+		err, pan := guardErr(func() error { return blockchain.RunPrograms(data, []common.Uint168{h}, []*pg.Program{p}) })
+		return err == nil && pan == ""
+	}
+	art := func(pre byte, what string, param, data []byte) map[string]interface{} {
+		h := keys.ProgramHash(pre, sc.prog.Code)
+		return map[string]interface{}{"kind": "mutation", "what": sc.kind, "desc": sc.desc + " " + what, "hash": hex.EncodeToString(h[:]),
+			"code": hex.EncodeToString(sc.prog.Code), "param": hex.EncodeToString(param), "data": hex.EncodeToString(data)}
+	}
+	n := (len(sc.prog.Code) - 3) / 34
+	for _, pre := range []byte{keys.PrefixMultiSig, keys.PrefixStandard, keys.PrefixDeposit, keys.PrefixCrossChain} {
+		tag := fmt.Sprintf("multisig|prefix=%02x", pre)
+		if pre == keys.PrefixStandard || pre == keys.PrefixDeposit {
+			atomic.AddInt64(&c.ct.verified, 1)
+			if n >= 2 && !run(pre, sc.prog.Parameter, sc.data) {
+				c.r.Violate("C37|wallet-signature-rejected|"+tag, "a wallet-signed multisig program does not pass under the deposit/standard prefix of the same script", art(pre, "valid", sc.prog.Parameter, sc.data))
+			} else {
+				c.classes.Add("signed-accepted:" + tag)
+			}
+			for pos := range sc.data {
+				for _, v := range alphabet(sc.data[pos])[:2] {
+					d := append([]byte{}, sc.data...)
+					d[pos] = v
+					atomic.AddInt64(&c.ct.mutations, 1)
+					if run(pre, sc.prog.Parameter, d) {
+						c.r.Violate("C37|mutated-data-accepted|"+tag, "a wallet signature still verifies after one byte of the signed content was changed", art(pre, fmt.Sprintf("pos=%d", pos), sc.prog.Parameter, d))
+					} else {
+						atomic.AddInt64(&c.ct.mutRejected, 1)
+					}
+				}
+			}
+		}
+		zero := make([]byte, len(sc.prog.Parameter))
+		for i := 0; i < len(zero); i += 65 {
+			zero[i] = 0x40
+		}
+		fewer := sc.prog.Parameter[:len(sc.prog.Parameter)-65]
+		other := append([]byte{}, sc.data...)
+		other[len(other)-1] ^= 0xff
+		for _, v := range []struct {
+			name        string
+			param, data []byte
+		}{{"zero-signatures", zero, sc.data}, {"fewer-signatures", fewer, sc.data}, {"zero-signatures+altered-data", zero, other}, {"altered-data", sc.prog.Parameter, other}} {
+			atomic.AddInt64(&c.ct.mutations, 1)
+			if run(pre, v.param, v.data) {
+				c.r.Violate("C37|unsigned-accepted|"+tag, "a multisig program without the wallet's valid signatures over these bytes passes the node's signature check", art(pre, v.name, v.param, v.data))
+			} else {
+				atomic.AddInt64(&c.ct.mutRejected, 1)
+			}
+		}
+	}
+}
+
 func permutations(a []int) [][]int {
 	if len(a) <= 1 {
 		return [][]int{append([]int{}, a...)}
@@ -421,7 +485,7 @@ func (c *checker) partA() {
 		}
 		return toMutate[i].desc < toMutate[j].desc
 	})
-	par.Go(len(toMutate), func(i int) { c.mutate(toMutate[i]) })
+	par.Go(len(toMutate), func(i int) { c.mutate(toMutate[i]); c.otherPrefixes(toMutate[i]) })
 	c.samples.Add(map[string]interface{}{"mutated_flows": len(toMutate)})
 	for i := 0; i < len(toMutate) && i < 4; i++ {
 		c.samples.Add(map[string]interface{}{"signed": toMutate[i].kind, "desc": toMutate[i].desc, "signed_bytes": len(toMutate[i].data)})
@@ -751,6 +815,7 @@ func main() {
 		"evaluations":         st.rawSigs + c.ct.verified + c.ct.undersigned + c.ct.mutations + c.ct.addr + c.ct.addrTamper + c.ct.amounts,
 		"distinct_nontrivial": c.ct.verified + c.ct.mutRejected + c.ct.addr + c.ct.amountsOK,
 		"rule": "A: standard (4 keys), multisig 1<=m<=n<=4 x every non-empty signer subset x every signing order (chained single-key wallets) + SignMultiSignTransactionByM, Schnorr over every non-empty subset of 4 keys; 3 transaction shapes; RunPrograms must accept (>= m signers) / reject (< m); every single-byte substitution (16-value alphabet) of the signed bytes of the canonical flows must be rejected. " +
+			"every canonical multisig flow (m<n and m==n) additionally under the standard (0x21) and deposit (0x1f) prefixes of the same script: valid must pass, 2 substitutions per byte of the signed bytes must fail; zero signatures, a dropped signature and altered data must fail under prefixes 0x12, 0x21, 0x1f and 0x4b. " +
 			"A2: rounds of 4096 distinct transactions (4 keys, counter in lock time/input/output/attribute) through SignStandardTransaction + RunPrograms, and 4096 distinct raw messages through Account.Sign + crypto.Verify, both cross-checked by the independent verifier, until signatures with a leading-zero r and a leading-zero s have each occurred >= 4 times on the transaction path (hard cap on rounds; fewer = engine error). " +
 			"B: 6 issued prefixes x {zero, ff, 160 single bits set/cleared, single-byte values, 200 digests}; single-character substitutions of 3 addresses per prefix. " +
 			"C: amount alphabet + d*10^k (d<=999, k<=18) with negatives + MinInt64. non-trivial = accepted wallet signatures + rejected mutations + round-tripped addresses and amounts",
